@@ -392,8 +392,8 @@ def _limited(op, tree, limit):
 
 
 def abort_by_recursion_limit(op, tree):
-    """Run op on tree under recursion limits just below what it needs (found by
-    bisection) and half-way.  -> number of aborted runs (0: not abortable)."""
+    """Run op on tree under recursion limits below what it needs, bisecting up
+    to just below (<= 2 frames) the need.  -> number of aborted runs (0: not abortable)."""
     import sys
 
     lo = _frames() + 8
@@ -404,15 +404,13 @@ def abort_by_recursion_limit(op, tree):
     if not _limited(op, tree, hi):
         return n + 1  # too deep for the normal limit: that run was an aborted one as well
     a, b = lo, hi  # fails at a, succeeds at b
-    while b - a > 1:
+    while b - a > 2:  # every failing probe is an aborted run; the last one is at most 2 frames short
         m = (a + b) // 2
         if _limited(op, tree, m):
             b = m
         else:
             a = m
             n += 1
-    n += not _limited(op, tree, b - 1)  # just below what the tree needs
-    n += not _limited(op, tree, (lo + b) // 2)  # and half-way
     return n
 
 
@@ -486,9 +484,9 @@ _FIRST_BAD = []  # per process: the aborted operation after which the first fail
 
 def history_problems(make_tree, stats, modes=("recursion-limit", "interrupt")):
     """make_tree() -> a fresh tree (parse or build).  For each op x mode: abort
-    the op on tree A, then the ordinary comparison must hold on A, on a fresh
-    copy made the same way, on an unrelated tree, and - after A is dropped - on
-    a tree made afterwards (which may reuse A's object ids)."""
+    the op on tree A, then the ordinary comparison must hold on A, on an
+    unrelated tree, and - after A is dropped - on a fresh tree made the same way
+    afterwards (which may reuse A's object ids)."""
     import gc
 
     out = []
@@ -502,15 +500,14 @@ def history_problems(make_tree, stats, modes=("recursion-limit", "interrupt")):
                 continue
             stats["history_aborted"][key] = stats["history_aborted"].get(key, 0) + n
             stats["history_cases"] += 1
-            subjects = [("same tree", A), ("fresh tree made the same way", make_tree()),
-                        ("unrelated tree", core.parse_outcome(UNRELATED, "unrelated.c")[1])]
+            subjects = [("same tree", A), ("unrelated tree", core.parse_outcome(UNRELATED, "unrelated.c")[1])]
             for which, t in subjects:
                 for sig, det in tree_problems(t, stats, light=True):
                     _FIRST_BAD.append(op)
                     out.append((_history_sig(_FIRST_BAD[0], sig), f"[{op} aborted by {mode}; checked on the {which}] {det}"))
             # id reuse: drop A (and the other subjects), then make a tree afterwards
             del A, subjects, t
-            gc.collect()
+            gc.collect(0)  # young generation only: a full collection walks the whole inherited heap
             B = make_tree()
             for sig, det in tree_problems(B, stats, light=True):
                 _FIRST_BAD.append(op)
@@ -761,7 +758,7 @@ def run(tier):
                      "sequence_child": list(astspec.SEQ_OPTIONS), "pool": src,
                      "history": {"deepest_pool_trees": HISTORY_DEEPEST, "pool_text_below_chars": HISTORY_MAX_CHARS,
                                  "aborted_ops": HISTORY_OPS, "abort_modes": ["recursion-limit (bisected)", "interrupt (MemoryError from a field)"],
-                                 "checked_on": ["same tree", "fresh tree", "unrelated tree", "tree made after the aborted one was dropped"]}})
+                                 "checked_on": ["same tree", "unrelated tree", "fresh tree made the same way after the aborted one was dropped"]}})
     R.assumptions += [
         "an operation that hits a Python limit (RecursionError, 'too many nested parentheses' in eval) is counted in "
         "operations_skipped_python_limit, not as a pycparser failure",
@@ -777,8 +774,8 @@ def run(tier):
         "rebuilt by eval(repr), pickle protocols 2..HIGHEST and deepcopy and compared structurally (with coordinates "
         "for pickle/deepcopy), by generated text, by object identity and under mutation. History family: for the deepest pool trees "
         "and every configuration with children, repr / pickle / deepcopy is first aborted midway (RecursionError under a bisected "
-        "recursion limit, MemoryError raised from a field) and caught, then the same comparison must hold on that tree, a fresh one, "
-        "an unrelated one and one made after the first was dropped. evaluations = rebuilds + "
+        "recursion limit, MemoryError raised from a field) and caught, then the structural comparison must hold on that tree, "
+        "an unrelated one and a fresh one made after the first was dropped. evaluations = rebuilds + "
         "text/identity/mutation/weakref comparisons; non-trivial = distinct canonical trees (with coordinates)",
     )
 
